@@ -353,7 +353,7 @@ def roll1(ctx):
                   'at roll-over the old WAL file is not flushed+fsynced (+dirsync) before "%s": its tail would only be flushed by Drop, never fsynced (flush:%s fsync:%s dirsync:%s order:%s)' % (what, d1, d2, d3, order))
 
 
-@rule('ROLL2', ['C02', 'C06'], floor=1, template='pairing')
+@rule('ROLL2', ['C02', 'C06', 'C03'], floor=1, template='pairing')
 def roll2(ctx):
     """Roll-over replaces handle, file number and offset together, before the next byte is written."""
     n = 0
@@ -379,6 +379,19 @@ def roll2(ctx):
             ok1, ok2 = paired(fn_s), paired(off0)
             ctx.check(ok1 and ok2, '%s:handle-number-offset' % b.path, where(b, f), 'file handle, file number and offset = 0 are replaced together',
                       'roll-over replaces the file handle without also %s: writes would be attributed to the wrong file / the cursor would be wrong' % ('updating file_number' if not ok1 else 'resetting the offset'))
+        # ... and atomically: once the number or the offset has been switched, no failure can leave the body before the
+        # handle is switched too (a failed create/open of the next file would leave the writer on the OLD file under
+        # the NEW number: the retried write is attributed to the wrong file, which the GC may then unlink)
+        errs = [e['point'] for e in b.exits() if e['kind'] in ('err', 'err_prop')]
+        k = 0
+        for x in sorted(set(fn_s + off0)):
+            if any(b.dominates(f, x) for f in fs):
+                continue
+            k += 1
+            r = b.reach_after(x, avoid=fs)
+            bad = [e for e in errs if e in r]
+            ctx.check(not bad, '%s:switch-is-atomic#%d' % (b.path, k), where(b, x), 'no error exit between the switch of number / offset and the switch of the handle',
+                      'roll-over can fail (%s) after the file number / offset was switched and before the file handle is: the writer keeps the old file under the new number' % (b.loc(bad[0]) if bad else '-'))
     if n == 0:
         ctx.missing('rollover', 'no replacement of RollingWriter.file found')
 
@@ -461,16 +474,24 @@ def sz2(ctx):
         if not stores:
             continue
         cut = list(setlen_full_sites(ctx, b))
+        cut_edges = []
+        from core import result_edges
         for cs in b.calls:
             if cs.node is not None and ctx.E.call_may(cs, 'SETLEN'):
                 cb = ctx.f.bodies[cs.node]
                 sl = setlen_full_sites(ctx, cb)
                 exits = [e['point'] for e in cb.ok_exits()]
                 if sl and all(any(cb.dominates(p, e) for p in sl) for e in exits):
-                    cut.append(cs.point)
+                    # the callee sizes the file whenever it SUCCEEDS: what counts is its Ok edge (a `create_file` that
+                    # failed with AlreadyExists and fell back to opening the leftover has sized nothing)
+                    oks = result_edges(b, cs.dest_local())['ok'] if cs.dest_local() is not None else []
+                    if oks:
+                        cut_edges += oks
+                    else:
+                        cut.append(cs.point)
         for s_ in stores:
             n += 1
-            r = b.reach([b.entry], avoid=cut)
+            r = b.reach([b.entry], avoid=cut, avoid_edges=cut_edges)
             ctx.check(s_ not in r, '%s:reuse-arm' % (BW_WRITE if b.name == BW_WRITE else b.path), where(b, s_), 'every path to the handle replacement sizes the new file (set_len(FILE_NUM_BYTES) or create_file)',
                       'a next WAL file can become the writer\'s file without set_len(FILE_NUM_BYTES): a 0-length leftover of a crash during file creation would swallow everything written to it')
     if n == 0:
